@@ -54,6 +54,10 @@ func OvPool() []ref.FunSig {
 		mk(29, m.Str, a, b),
 		mk(30, m.Str, m.List(a), m.List(b)),
 		mk(31, m.Str, m.List(a), m.List(a)),
+		// the SAME monomorphic signatures as #0 and #5, registered again with another result type
+		// (a later registration of one signature replaces the earlier one, for typing and for running alike)
+		mk(32, m.Num, m.Num),
+		mk(33, m.Bool, m.List(m.Num), m.Num),
 	}
 }
 
